@@ -144,6 +144,10 @@ type DataSpec struct {
 	PerturbAt int    `json:"perturb_at"`
 	Seed2     uint64 `json:"seed2"`
 	Round     int    `json:"round"` // digits to round to (0 = none)
+	// PriceScale / VolumeScale multiply every price / every volume after rounding (0 = 1); powers of two keep
+	// IEEE arithmetic exactly scale-covariant (property C18)
+	PriceScale  float64 `json:"price_scale,omitempty"`
+	VolumeScale float64 `json:"volume_scale,omitempty"`
 }
 
 func (d DataSpec) seedAt(i int) uint64 {
@@ -170,7 +174,14 @@ func (d DataSpec) BarAt(i int) Bar {
 	h := math.Max(o, c) + 3*unit(s, 4, i)
 	l := math.Min(o, c) - 3*unit(s, 5, i)
 	v := math.Floor(1000 + 9000*unit(s, 6, i))
-	return Bar{rnd(o, d.Round), rnd(h, d.Round), rnd(l, d.Round), rnd(c, d.Round), v}
+	ps, vs := d.PriceScale, d.VolumeScale
+	if ps == 0 {
+		ps = 1
+	}
+	if vs == 0 {
+		vs = 1
+	}
+	return Bar{rnd(o, d.Round) * ps, rnd(h, d.Round) * ps, rnd(l, d.Round) * ps, rnd(c, d.Round) * ps, v * vs}
 }
 
 // Value gives the value of a named input at position i.
